@@ -470,13 +470,19 @@ func sampleOf(r runOut) map[string]interface{} {
 				switch o.Kind {
 				case "get":
 					ops = append(ops, fmt.Sprintf("get(p%d)x%d", o.Pool, o.N))
+				case "rr":
+					ops = append(ops, fmt.Sprintf("one-from-every-pool x%d", o.N))
 				case "write":
 					ops = append(ops, fmt.Sprintf("write(p%d,#%d)", o.Pool, o.Arg))
 				default:
 					ops = append(ops, o.Kind)
 				}
 			}
-			pts = append(pts, fmt.Sprintf("task %d pools [%s]: %s", ti, strings.Join(ps, " "), strings.Join(ops, " ")))
+			relay := ""
+			if pt.Relay {
+				relay = " (executed by two goroutines in turn)"
+			}
+			pts = append(pts, fmt.Sprintf("task %d%s pools [%s]: %s", ti, relay, strings.Join(ps, " "), strings.Join(ops, " ")))
 		}
 		m["pool_tasks"] = pts
 	}
